@@ -131,6 +131,17 @@ def getIdxWith (g : Grid) (ds : List Nat → Except XErr (List (Nat × Nat))) (m
 def getIdx (g : Grid) (m : Mask) (ks : List Ix) : Except XErr Mask :=
   getIdxWith g (dataSlices g) m ks
 
+/-- `new[data_slices] = new_is_in_data_slice` (`__getitem__` as it was before `fix:` commit 20c9772; kept to pin the repaired defect) -/
+def getIdxOld (g : Grid) (m : Mask) (ks : List Ix) : Except XErr Mask :=
+  match dataSlices g (ids g.size m) with
+  | .error e => .error e
+  | .ok ext =>
+    match pickAll ks ext with
+    | .error e => .error e
+    | .ok picks =>
+      let sel : List AxisSel := g.axes.zip (ext.zip picks)
+      .ok fun p => if inBox sel p then inPicks sel p else m p
+
 /-- `new = np.zeros(n, bool); new[I] = vals` -/
 def scatter (I : List Nat) (vals : List Bool) : Mask :=
   fun p => (I.zip vals).lookup p == some true
